@@ -65,6 +65,28 @@ func helperKey(pkgName string, fd *ast.FuncDecl) string {
 	return pkgName + "." + recv + "." + fd.Name.Name
 }
 
+// sigOf: parameter and result types as written (the form stored in knownHelpers).
+func sigOf(fd *ast.FuncDecl) string {
+	var ps, rs []string
+	list := func(fl *ast.FieldList, out *[]string) {
+		if fl == nil {
+			return
+		}
+		for _, f := range fl.List {
+			n := len(f.Names)
+			if n == 0 {
+				n = 1
+			}
+			for i := 0; i < n; i++ {
+				*out = append(*out, types.ExprString(f.Type))
+			}
+		}
+	}
+	list(fd.Type.Params, &ps)
+	list(fd.Type.Results, &rs)
+	return "(" + strings.Join(ps, ",") + ")(" + strings.Join(rs, ",") + ")"
+}
+
 func normalize(repo, arch string) (*normResult, error) {
 	res := &normResult{overlay: map[string][]byte{}}
 	counts := map[string]int{}
@@ -134,6 +156,21 @@ func (in *inliner) run() bool {
 	in.cands = map[*types.Func]*ast.FuncDecl{}
 	in.dirty = map[*ast.File]bool{}
 	in.remain = map[*types.Func]int{}
+	// signatures of the listed helpers of this package that no longer exist under their name
+	present := map[string]bool{}
+	for _, f := range p.Syntax {
+		for _, d := range f.Decls {
+			if fd, ok := d.(*ast.FuncDecl); ok {
+				present[helperKey(p.Name, fd)] = true
+			}
+		}
+	}
+	renamed := map[string]bool{}
+	for k, sig := range knownHelpers {
+		if strings.HasPrefix(k, p.Name+".") && !present[k] {
+			renamed[sig] = true
+		}
+	}
 	for _, f := range p.Syntax {
 		if strings.HasSuffix(p.Fset.File(f.Pos()).Name(), "_test.go") {
 			continue
@@ -143,7 +180,12 @@ func (in *inliner) run() bool {
 			if !ok || fd.Body == nil || ast.IsExported(fd.Name.Name) || fd.Name.Name == "init" || fd.Name.Name == "main" || fd.Name.Name == "_" {
 				continue
 			}
-			if knownHelpers[helperKey(p.Name, fd)] {
+			if _, known := knownHelpers[helperKey(p.Name, fd)]; known {
+				continue
+			}
+			// a known helper that is missing from the tree and has this signature: this is it, renamed
+			if renamed[sigOf(fd)] {
+				in.note("%s: taken for a renamed helper of the pinned commit (same signature as a missing one)", helperKey(p.Name, fd))
 				continue
 			}
 			fn, _ := info.Defs[fd.Name].(*types.Func)
@@ -593,6 +635,9 @@ func (in *inliner) site(file *ast.File, encl *ast.FuncDecl, st ast.Stmt) []ast.S
 			return true
 		}
 		if o2 != obj {
+			if os.Getenv("LZDBG3") != "" {
+				fmt.Fprintf(os.Stderr, "DBG capture %s: obj=%v (pos %d) o2=%v fd=[%d,%d) call=%d\n", id.Name, obj, obj.Pos(), o2, fd.Pos(), fd.End(), call.Pos())
+			}
 			capture = id.Name
 		}
 		return true
@@ -1000,6 +1045,13 @@ func clearPos(stmts []ast.Stmt) {
 		switch v.Kind() {
 		case reflect.Ptr:
 			if v.IsNil() || seen[v.Pointer()] {
+				return
+			}
+			// identifiers point back to their declarations (Ident.Obj.Decl): never follow those
+			if _, isObj := v.Interface().(*ast.Object); isObj {
+				return
+			}
+			if _, isScope := v.Interface().(*ast.Scope); isScope {
 				return
 			}
 			seen[v.Pointer()] = true
